@@ -443,15 +443,27 @@ def c06_overflow_loop(ctx, repo):
         ctx.ob("C06-loop", f.where, "except OTLOffsetOverflowError handler present", False, f"{len(hs)} handlers")
         return
     h = hs[0]
-    # every path through the handler ends in continue-after-ok, state change, or raise
-    conts = [n for s in h.body for n in ast.walk(s) if isinstance(n, ast.Continue)]
-    ok = all(any(norm(t) == "ok" for t, pol in guard_conditions(c, stop=h) if pol) for c in conts) and bool(conts)
-    ctx.ob("C06-loop", f.where, "`continue` only under `if ok`", ok, "" if ok else "overflow is retried without a successful fix (possible endless loop or swallowed error)")
+    # every path through the handler: resolved -> retry; not resolved -> either leave the harfbuzz state or re-raise.
+    # Stated on facts that hold at the statements (robust to `if ok: continue` vs nested negated tests and to renaming):
+    from ..cfg import CFG as _CFG, implied_conditions
+
+    gh = _CFG(f.node)
+    res = [n for s in h.body for n in ast.walk(s) if isinstance(n, ast.Assign) and isinstance(n.value, ast.Call) and last_attr(n.value) == "tryResolveOverflow" and isinstance(n.targets[0], ast.Name)]
+    R = res[0].targets[0].id if res else "ok"
     raises = [n for s in h.body for n in ast.walk(s) if isinstance(n, ast.Raise)]
     states = [n for s in h.body for n in ast.walk(s) if isinstance(n, ast.Assign) and norm(n.targets[0]) == "state"]
-    last = h.body[-1]
-    ok = isinstance(last, ast.If) and any(isinstance(x, ast.Raise) for x in last.orelse) and any(isinstance(x, ast.Assign) and norm(x.targets[0]) == "state" for x in last.body)
-    ctx.ob("C06-loop", f.where, "unresolved overflow: switch HB_FT -> FT_FALLBACK, otherwise re-raise", ok and bool(raises) and bool(states), "" if ok else "handler can fall through without re-raising")
+    fr = [implied_conditions(gh, r) for r in raises]
+    fs = [implied_conditions(gh, s_) for s_ in states]
+    conts = [n for s in h.body for n in ast.walk(s) if isinstance(n, ast.Continue)]
+    ok = bool(res) and all((R, True) in implied_conditions(gh, c) for c in conts)
+    ctx.ob("C06-loop", f.where, f"`continue` only when {R} (the fix-up reported progress)", ok, "" if ok else "overflow is retried without a successful fix (possible endless loop or swallowed error)")
+    ok = bool(raises) and bool(states) and all((R, False) in x for x in fr + fs)
+    if ok:
+        # the re-raise and the state change are the two arms of one test on `state`
+        st_r = {(t, p) for x in fr for (t, p) in x if t.startswith("state is")}
+        st_s = {(t, p) for x in fs for (t, p) in x if t.startswith("state is")}
+        ok = bool(st_r) and bool(st_s) and {t for t, p in st_r} == {t for t, p in st_s} and {p for t, p in st_r} != {p for t, p in st_s}
+    ctx.ob("C06-loop", f.where, "unresolved overflow: switch HB_FT -> FT_FALLBACK, otherwise re-raise", ok, "" if ok else "handler can fall through without re-raising")
     rets = [n for s in h.body for n in ast.walk(s) if isinstance(n, ast.Return)]
     ctx.ob("C06-loop", f.where, "handler never returns data", not rets)
     # (the `lastOverflowRecord == e.value` guard in tryResolveOverflow is NOT an obligation: OverflowErrorRecord defines no
@@ -464,11 +476,25 @@ def c06_overflow_loop(ctx, repo):
     ctx.ob("C06-loop", tr.where, "tryResolveOverflow reports only what the fix-up functions report (ok is 0 or a fix-up's result, every return is ok or a fix-up's result)", ok, "" if ok else "a retry can be requested although nothing was changed: endless loop instead of an error")
     ot = repo.mod(OTT)
     fl = ot.func("fixLookupOverFlows")
-    loops = [n for n in ast.walk(fl.node) if isinstance(n, ast.For) and norm(n.iter) == "enumerate(lookup.SubTable)"]
-    ok = bool(loops) and any(isinstance(x, ast.Assign) and norm(x.targets[0]) == "lookup.SubTable[si]" and norm(x.value) == "extSubTable" for x in ast.walk(loops[0])) and any(isinstance(x, ast.Assign) and norm(x.targets[0]) == "extSubTable.ExtSubTable" and norm(x.value) == "subTable" for x in ast.walk(loops[0]))
+    # the promotion block may have been extracted into a private helper: search the closure
+    from ..core import private_callees
+
+    fls = [fl] + private_callees(repo, fl)
+    ok = False
+    ok2 = False
+    for fx in fls:
+        loops = [n for n in ast.walk(fx.node) if isinstance(n, ast.For) and isinstance(n.iter, ast.Call) and norm(n.iter.func) == "enumerate" and norm(n.iter.args[0]).endswith(".SubTable")]
+        for lp in loops:
+            idx, sub = [norm(e) for e in lp.target.elts] if isinstance(lp.target, ast.Tuple) and len(lp.target.elts) == 2 else (None, None)
+            base = norm(lp.iter.args[0])
+            wraps = [x for x in ast.walk(lp) if isinstance(x, ast.Assign) and norm(x.targets[0]) == f"{base}[{idx}]"]
+            inner = [x for x in ast.walk(lp) if isinstance(x, ast.Assign) and norm(x.targets[0]).endswith(".ExtSubTable") and norm(x.value) == sub]
+            if wraps and inner and norm(wraps[0].value) == norm(inner[0].targets[0]).rsplit(".", 1)[0]:
+                ok = True
+        if any(isinstance(n, ast.Assign) and norm(n.targets[0]).endswith(".LookupType") and norm(n.value) == "extType" for n in ast.walk(fx.node)):
+            ok2 = True
     ctx.ob("C06-loop", fl.where, "promotion wraps every subtable in place: lookup.SubTable[si] = Extension(subTable)", ok, "" if ok else "some subtables of a promoted lookup are not wrapped")
-    ok = any(isinstance(n, ast.Assign) and norm(n.targets[0]) == "lookup.LookupType" and norm(n.value) == "extType" for n in ast.walk(fl.node))
-    ctx.ob("C06-loop", fl.where, "promoted lookup gets LookupType = extType", ok)
+    ctx.ob("C06-loop", fl.where, "promoted lookup gets LookupType = extType", ok2)
     et = sorted((norm(t), try_fold(n.value)) for i in ast.walk(fl.node) if isinstance(i, ast.If) for n in i.body if isinstance(n, ast.Assign) and norm(n.targets[0]) == "extType" for t in [i.test])
     sc = load_schema(repo)
     ok = et == [("overflowRecord.tableType == 'GPOS'", 9), ("overflowRecord.tableType == 'GSUB'", 7)] and sc.lookup_types["GSUB"].get(7) == "ExtensionSubst" and sc.lookup_types["GPOS"].get(9) == "ExtensionPos"
